@@ -121,6 +121,10 @@ class _Gen:
                                      "sequence"))}
         if rng.random() < 0.2:
             node["late_attrs"] = True
+            if rng.random() < 0.6:
+                node["ctor_attrs"] = {
+                    "jobs_window": rng.choice((None, 1, 1, 2, 5)),
+                    "timeout": rng.choice((None, None, 0.25, 10.0))}
         if top and rng.random() < prof['pure_top']:
             node["cls"] = "PureScheduler"
         else:
